@@ -39,7 +39,7 @@ def dec(x, provider=None):
         src = x.get("src") or (provider or tzp.name)
         naive = datetime(*x["v"])
         if src == "pytz":
-            return pytz.timezone(x["tz"]).localize(naive, is_dst=not x.get("fold", 0))
+            return pytz.timezone(x["tz"]).localize(naive, is_dst=bool(x.get("is_dst", False)))  # pytz default, as the parser does
         if src == "dateutil":
             return naive.replace(tzinfo=dateutil.tz.gettz(x["tz"]), fold=x.get("fold", 0))
         return naive.replace(tzinfo=zoneinfo.ZoneInfo(x["tz"]), fold=x.get("fold", 0))
